@@ -19,6 +19,8 @@ Fixpoint pmsg (fuel : nat) : P msg :=
              else if kind =? 1 then (l <- plist praw ;; ret (n, WPacked l))
              else if kind =? 2 then (s <- pbytes ;; ret (n, WStr s))
              else if kind =? 3 then (m <- pmsg k ;; ret (n, WMsg m))
+             else if kind =? 4 then (x <- praw ;; ret (n, WFix64 x))
+             else if kind =? 5 then (x <- praw ;; ret (n, WFix32 x))
              else pfail)
   end.
 Definition ptree : P msg := pmsg 6.
@@ -123,6 +125,8 @@ Fixpoint wval_eqb (fuel : nat) (a b : wval) : bool :=
       | WPacked x, WPacked y => list_eqb Z.eqb x y
       | WStr x, WStr y => bytes_eqb x y
       | WMsg x, WMsg y => list_eqb (fun f g => (fst f =? fst g) && wval_eqb k (snd f) (snd g)) x y
+      | WFix64 x, WFix64 y => x =? y
+      | WFix32 x, WFix32 y => x =? y
       | _, _ => false
       end
   end.
